@@ -504,8 +504,8 @@ def wrap_walk(spec, ctx):
     # with "crowd": after three rounds very many other endpoints subscribe, get their initial notifications and leave again;
     # the two long-term subscribers' counters go on as if nothing had happened
     crowd = spec.get("crowd", 0)
-    crowd_eps = [H.IPv4EndpointOption(address=ipaddress.IPv4Address(f"10.17.{i >> 8 & 255}.{i & 255}"), l4proto=H.L4Protocols.UDP, port=6200)
-                 if i % 4 else H.IPv6EndpointOption(address=ipaddress.IPv6Address(f"2001:db8:17::{i + 1:x}"), l4proto=H.L4Protocols.UDP, port=6200)
+    crowd_eps = [H.IPv4EndpointOption(address=ipaddress.IPv4Address(f"10.{17 + (i >> 16)}.{i >> 8 & 255}.{i & 255}"), l4proto=H.L4Protocols.UDP, port=6200)
+                 if i % 4 else H.IPv6EndpointOption(address=ipaddress.IPv6Address(f"2001:db8:17::{(i + 1) >> 16:x}:{(i + 1) & 0xFFFF:x}"), l4proto=H.L4Protocols.UDP, port=6200)
                  for i in range(crowd)]
     h.at(0.0, setup)
     t = 0.125
